@@ -79,40 +79,66 @@ fn proper_named_descendants<'a>(n: &TsNode<'a>) -> Vec<TsNode<'a>> {
 /// Cut a pattern from node `n`: `hole_picks` choose descendants to abstract, `run_pick`
 /// optionally chooses (list-parent, first sibling of the trailing run).
 pub fn cut_pattern(src: &str, n: &TsNode, hole_picks: &[Index], run_pick: Option<(Index, Index)>) -> PatSpec {
-  cut_pattern_pref(src, n, hole_picks, run_pick, false)
+  cut_pattern_pref(src, n, hole_picks, run_pick, 0)
 }
 
-/// `prefer_multiline`: holes are chosen among descendants spanning several lines when there are any
+/// `prefer` >= 1: holes are chosen among descendants spanning several lines when there are any;
+/// >= 2: among those, the ones whose text starts with a space
 pub fn cut_pattern_pref(
   src: &str,
   n: &TsNode,
   hole_picks: &[Index],
   run_pick: Option<(Index, Index)>,
-  prefer_multiline: bool,
+  prefer: u8,
 ) -> PatSpec {
   let mut descendants = proper_named_descendants(n);
-  if prefer_multiline {
+  let all_descendants = descendants.clone();
+  if prefer >= 1 {
     let ml: Vec<TsNode> = descendants.iter().filter(|d| tsutil::text(src, d).contains('\n')).cloned().collect();
     if !ml.is_empty() {
       descendants = ml;
+    }
+  }
+  if prefer >= 2 {
+    // multi-line captures whose first line starts with white space (content nodes)
+    let ws: Vec<TsNode> = descendants.iter().filter(|d| tsutil::text(src, d).starts_with(' ')).cloned().collect();
+    if !ws.is_empty() {
+      descendants = ws;
     }
   }
   let mut run: Option<Run> = None;
   if let Some((pi, ki)) = run_pick {
     // parents (n itself or descendants) with at least one named child
     let mut parents: Vec<TsNode> = std::iter::once(n.clone())
-      .chain(descendants.iter().cloned())
+      .chain(all_descendants.iter().cloned())
       .filter(|p| p.named_child_count() >= 1 && p.child_count() >= 2)
       .collect();
     parents.sort_by_key(|p| (p.end_byte() - p.start_byte(), p.start_byte()));
+    fn named_of<'a>(p: &TsNode<'a>) -> Vec<TsNode<'a>> {
+      tsutil::children(p).into_iter().filter(|c| c.is_named() && c.end_byte() > c.start_byte()).collect()
+    }
+    // a run whose first node starts with white space and spans lines (content of comments,
+    // strings, templates): its first line carries leading spaces that are content
+    let spacey = |c: &TsNode| {
+      let t = tsutil::text(src, c);
+      t.starts_with(' ') && t.contains('\n')
+    };
+    let mut forced_k = None;
+    if prefer >= 2 {
+      let sp: Vec<TsNode> = parents.iter().filter(|p| named_of(p).iter().any(|c| spacey(c))).cloned().collect();
+      if !sp.is_empty() {
+        parents = sp;
+        forced_k = Some(());
+      }
+    }
     if !parents.is_empty() {
       let p = &parents[pi.index(parents.len())];
-      let named: Vec<TsNode> = tsutil::children(p)
-        .into_iter()
-        .filter(|c| c.is_named() && c.end_byte() > c.start_byte())
-        .collect();
+      let named: Vec<TsNode> = named_of(p);
       if !named.is_empty() {
-        let k = ki.index(named.len());
+        let k = match forced_k {
+          Some(()) => named.iter().position(|c| spacey(c)).unwrap_or(0),
+          None => ki.index(named.len()),
+        };
         let first = &named[k];
         let last = named.last().unwrap();
         // the run must be a proper part of its parent: a run covering the parent's whole span
